@@ -744,6 +744,24 @@ example : ∃ (snd rcv : Ovl) (t : Tree) (ro : Roster), ro.Distinct ∧ t.WF ro 
   exact ⟨localStep {} (.register t), localStep {} (.request 1), t, ro, by unfold Roster.Distinct; decide,
     newTree_wf 1 ro _ (by decide) (by simp [NodesOK, ro]), by decide, by decide, by decide, by decide, by decide⟩
 
+/-- a request that cannot be sent leaves no requested marker behind: afterwards a tree pushed by any
+peer under that id is not stored (unless the id was already waiting before) -/
+theorem c06_failed_request_leaves_no_marker (o : Ovl) (id : Nat) (tm : Option TreeMarshal) (ro : Option Roster)
+    (h : o.isRequested id = false) :
+    (localStep o (.reqFail id)).isRequested id = false ∧
+    (handle (localStep o (.reqFail id)) (.responseTree tm ro)).1.get id = o.get id := by
+  have hst : (localStep o (.reqFail id)).store = o.store := by
+    simp only [localStep]; split <;> rfl
+  have hreq : (localStep o (.reqFail id)).isRequested id = false := by
+    simp only [Ovl.isRequested, hst]; simpa [Ovl.isRequested] using h
+  refine ⟨hreq, ?_⟩
+  have hget : (localStep o (.reqFail id)).get id = o.get id := by simp [Ovl.get, hst]
+  apply Classical.byContradiction
+  intro hne
+  have := (c06_only_requested_partial (localStep o (.reqFail id)) id).1 tm ro (by rw [hget]; exact hne)
+  rw [hreq] at this
+  exact absurd this (by simp)
+
 /-! ### the code regions the model stands for
 Regenerated from /repo's source on every run (`harness/cmd/astfacts` → `OnetVerif/Shapes.lean`): the
 calls that matter for synchronisation and data flow, the lock regions and (for decision logic) the
@@ -806,6 +824,24 @@ theorem c06_shape_treeStorage_IsRequested :
 theorem c06_shape_treeStorage_Set :
     Shapes.treestorage_treeStorage_Set =
    ["ts.Lock", "defer:ts.Unlock", "ts.cancelDeletion"] := rfl
+
+theorem c06_shape_Overlay_requestTree :
+    Shapes.overlay_Overlay_requestTree =
+   ["o.savePendingMsg", "verifPoint:rt.parked", "treeStorage.Get", "if:(tree!=nil)",
+     "o.checkPendingMessages", "return:nil", "verifPoint:rt.recheck-miss", "io.Wrap",
+     "if:(err!=nil)", "return:xerrors.Errorf(\"\",err)",
+     "if:o.treeStorage.IsRegistered(onetMsg.To.TreeID)", "return:nil",
+     "verifPoint:rt.unregistered", "treeStorage.Register", "verifPoint:rt.registered",
+     "server.Send", "if:(err!=nil)", "treeStorage.Unregister", "return:xerrors.Errorf(\"\",err)",
+     "return:nil"] := rfl
+
+theorem c06_shape_treeStorage_Register :
+    Shapes.treestorage_treeStorage_Register =
+   ["ts.Lock", "if:!ok", "ts.Unlock"] := rfl
+
+theorem c06_shape_treeStorage_Unregister :
+    Shapes.treestorage_treeStorage_Unregister =
+   ["ts.Lock", "defer:ts.Unlock", "if:(tree==nil)"] := rfl
 
 
 end C06
